@@ -945,3 +945,68 @@ pub fn frames(out: &mut Out, seed: u64, thorough: bool) {
 fn summarize(o: &RxOut) -> String {
     o.jres.clone()
 }
+
+// ------------------------------------------------------------------ rxscn
+/// S->I: replay behaviours of MC_Rx (sampled by TLC in simulation mode).  Tokens:
+///   provision:0 | complete:0 | garbage:0 | first:<id>:<pdu> | inter:<id>:<pdu>:<k> | end:<id>:<pdu>:<k>:<crc>
+/// PDU p is 12 bytes sent as three 4-byte chunks (k = 1 first, 2 intermediate, 3 end); `crc` names the PDU
+/// whose train the trailer was computed over (0 = junk).  As in the model the caller initially holds
+/// every buffer and nothing is provisioned.
+pub fn rxscn(out: &mut Out, path: &str) {
+    let text = std::fs::read_to_string(path).unwrap_or_default();
+    let label = [1u8, 2, 3];
+    let ptype = 0x0800u16;
+    let pdu_of = |p: usize| -> Vec<u8> { (0..12).map(|i| (p * 16 + i) as u8).collect() };
+    for line in text.lines() {
+        let mut it = line.split_whitespace();
+        let slots: usize = it.next().and_then(|s| s.parse().ok()).unwrap_or(2);
+        set_slots(slots);
+        let mut rx = mk_rx(out, "rxscn", "tlc", slots, 16, 0, std_mgr(), false);
+        let mut held: Vec<Box<[u8]>> = vec![vec![0xEE; 16].into_boxed_slice(), vec![0xEE; 17].into_boxed_slice()];
+        for id in 0..3u8 {
+            rx.note_id(id);
+        }
+        for tok in it {
+            let f: Vec<&str> = tok.split(':').collect();
+            let num = |i: usize| -> usize { f.get(i).and_then(|s| s.parse().ok()).unwrap_or(0) };
+            let bytes: Option<Vec<u8>> = match f[0] {
+                "provision" => {
+                    if let Some(b) = held.pop() {
+                        if let Some(back) = rx.ev_provision_buf(out, b) {
+                            held.push(back);
+                        }
+                    }
+                    None
+                }
+                "complete" => Some(complete(&[7, 7, 7], &label, false, ptype).ser()),
+                "garbage" => Some(vec![0, 0, 0]),
+                "first" => Some(train(&pdu_of(num(2)), &label, false, ptype, num(1) as u8, &[4, 4])[0].ser()),
+                "inter" => {
+                    let p = pdu_of(num(2));
+                    let k = num(3).clamp(1, 3);
+                    Some(P { kind: 0, lt: 3, fragid: num(1) as u8, tl: 0, ptype: 0, label: vec![], chain: vec![], payload: p[(k - 1) * 4..k * 4].to_vec(), crc: 0, gse_len: None }.ser())
+                }
+                "end" => {
+                    let p = pdu_of(num(2));
+                    let k = num(3).clamp(1, 3);
+                    let c = num(4);
+                    let crc = if c == 0 {
+                        0xDEAD_BEEF
+                    } else {
+                        let tl = (12 + 2 + label.len()) as u16;
+                        crc32_mpeg(&[&tl.to_be_bytes(), &ptype.to_be_bytes(), &label, &pdu_of(c)])
+                    };
+                    Some(P { kind: 1, lt: 3, fragid: num(1) as u8, tl: 0, ptype: 0, label: vec![], chain: vec![], payload: p[(k - 1) * 4..k * 4].to_vec(), crc, gse_len: None }.ser())
+                }
+                _ => None,
+            };
+            if let Some(b) = bytes {
+                let o = rx.ev_decap(out, &b, vec![]);
+                if let Some(buf) = o.returned {
+                    held.push(buf); // stays with the caller until the model provisions it
+                }
+            }
+        }
+        rx.ev_drain(out);
+    }
+}
